@@ -36,26 +36,26 @@ theorem snk_keeps_F (s : Nat) : ∀ a ∈ snkActs s, ∀ st, (a.upd st).F = st.F
 /-- **the frames committed in a run are the camera's frames 0, 1, 2, … in order — in every state of every schedule** -/
 theorem DId.micro : ∀ rt, MReach rt → ∀ s, DIdP s (getS rt s) rt.client := by
   apply MReach.inv' (fun rt => ∀ s, DIdP s (getS rt s) rt.client)
-  · intro ring cfgs prog s _ _ _ _
+  · intro ring cfgs prog s _ _ _
     rw [getS_initRT]
     split
     · exact DId.init ring _ prog s
     · exact DId.default prog s
   · intro s a ha rt hr hg h
     refine all_setS_cl DIdP rt s _ ?_ h
-    intro hf he hm hF
-    rw [(src_keeps_script s a ha _).1] at hf; rw [(src_keeps_script s a ha _).2] at he; rw [src_keeps_F s a ha] at hF
-    exact DId.src s rt.client rt.state a ha _ hg (TInvAll.micro rt hr s) (DUse.micro rt hr s hf he hm) (DLog.micro rt hr s hf he hm) hf he hF (h s hf he hm hF)
+    intro he hm hF
+    rw [(src_keeps_script s a ha _).2] at he; rw [src_keeps_F s a ha] at hF
+    exact DId.src s rt.client rt.state a ha _ hg (TInvAll.micro rt hr s) (DUse.micro rt hr s he hm) (DLog.micro rt hr s he hm) he hF (h s he hm hF)
   · intro s a ha rt _ hg h
     refine all_setS_cl DIdP rt s _ ?_ h
-    intro hf he hm hF
-    rw [(flt_keeps_script a ha _).1] at hf; rw [(flt_keeps_script a ha _).2] at he; rw [flt_keeps_F a ha] at hF
-    exact DId.flt s rt.client a ha _ hg (h s hf he hm hF)
+    intro he hm hF
+    rw [(flt_keeps_script a ha _).2] at he; rw [flt_keeps_F a ha] at hF
+    exact DId.flt s rt.client a ha _ hg (h s he hm hF)
   · intro s a ha rt hr hg h
     refine all_setS_cl DIdP rt s _ ?_ h
-    intro hf he hm hF
-    rw [(snk_keeps_script s a ha _).1] at hf; rw [(snk_keeps_script s a ha _).2] at he; rw [snk_keeps_F s a ha] at hF
-    exact DId.snk s rt.client rt.state a ha _ hg (TInvAll.micro rt hr s) (DUse.micro rt hr s hf he hm) (h s hf he hm hF)
+    intro he hm hF
+    rw [(snk_keeps_script s a ha _).2] at he; rw [snk_keeps_F s a ha] at hF
+    exact DId.snk s rt.client rt.state a ha _ hg (TInvAll.micro rt hr s) (DUse.micro rt hr s he hm) (h s he hm hF)
   · intro a ha rt hr hg h
     exact client_families DId.Kept DId.client_base DId.client_mon DId.client_cfg DId.client_start DId.client_err
       DId.client_stop DId.client_acc DId.client_flush a ha rt (TInvAll.micro rt hr) (DUse.micro rt hr) (DLog.micro rt hr) hg h
